@@ -87,14 +87,23 @@ Needed(g, T, L, targets) ==
 \* Dependency relation between statements (no validations) and a
 \* topological order of all statements; cyclic graphs get no order.
 DepOn(g, T, L, i) == {Prod(g, f) : f \in All(g, T, L, i)} \ {0}
-RECURSIVE TopoFrom(_, _, _, _, _)
-TopoFrom(g, T, L, done, acc) ==
-  LET ready == {i \in Ids(g) \ done : DepOn(g, T, L, i) \subseteq done} IN
+\* S is closed under DepOn (a needed closure, or all statements)
+RECURSIVE TopoFrom(_, _, _, _, _, _)
+TopoFrom(g, T, L, S, done, acc) ==
+  LET ready == {i \in S \ done : DepOn(g, T, L, i) \subseteq done} IN
   IF ready = {} THEN acc
   ELSE LET i == CHOOSE x \in ready : \A y \in ready : x <= y
-       IN TopoFrom(g, T, L, done \cup {i}, Append(acc, i))
-Topo(g, T, L) == TopoFrom(g, T, L, {}, <<>>)
-Acyclic(g, T, L) == Len(Topo(g, T, L)) = Len(g.stmts)
+       IN TopoFrom(g, T, L, S, done \cup {i}, Append(acc, i))
+\* the statements everything in S transitively depends on, S included
+RECURSIVE UpClose(_, _, _, _, _)
+UpClose(g, T, L, S, fuel) == LET nxt == S \cup UNION {DepOn(g, T, L, j) : j \in S} IN IF nxt = S \/ fuel = 0 THEN S ELSE UpClose(g, T, L, nxt, fuel - 1)
+TopoN(g, T, L, S) == TopoFrom(g, T, L, UpClose(g, T, L, S, Len(g.stmts) + 1), {}, <<>>)
+AcyclicN(g, T, L, S) == Len(TopoN(g, T, L, S)) = Cardinality(UpClose(g, T, L, S, Len(g.stmts) + 1))
+\* statements of S that lie on a dependency cycle
+OnCycle(g, T, L, i) == i \in UpClose(g, T, L, DepOn(g, T, L, i), Len(g.stmts) + 1)
+CycleStmts(g, T, L, S) == {i \in UpClose(g, T, L, S, Len(g.stmts) + 1) : OnCycle(g, T, L, i)}
+Topo(g, T, L) == TopoN(g, T, L, Ids(g))
+Acyclic(g, T, L) == AcyclicN(g, T, L, Ids(g))
 
 RECURSIVE DownFrom(_, _, _, _, _)
 DownFrom(g, T, L, S, fuel) ==
@@ -120,6 +129,7 @@ CleanFold(g, order, k, pred) ==
               [f \in DOMAIN pred |-> IF f \in Outs(s) THEN OutC(s, f, pred) ELSE pred[f]])
 Base(g, T) == [f \in Files(g, T) |-> IF Prod(g, f) = 0 THEN Ct(T, f) ELSE Missing(f)]
 CleanContent(g, T, L) == CleanFold(g, Topo(g, T, L), 1, Base(g, T))
+CleanContentN(g, T, L, S) == CleanFold(g, TopoN(g, T, L, S), 1, Base(g, T))
 
 \* -- which commands a correct build runs ------------------------------------
 RefT(s, l) == IF Restat(s) \/ s.gen THEN l.end ELSE l.start
@@ -157,7 +167,7 @@ RunFold(g, T, L, F, need, order, k, acc) ==
                           pred |-> [f \in DOMAIN acc.pred |-> IF f \in Outs(s) THEN OutC(s, f, acc.pred) ELSE acc.pred[f]]])
 Disk(g, T) == [f \in Files(g, T) |-> Ct(T, f)]
 ExpectedRun(g, T, L, F, targets) ==
-  RunFold(g, T, L, F, Needed(g, T, L, targets), Topo(g, T, L), 1,
+  RunFold(g, T, L, F, Needed(g, T, L, targets), TopoN(g, T, L, Needed(g, T, L, targets)), 1,
           [runs |-> {}, rew |-> {}, pred |-> Disk(g, T)]).runs
 
 (***************************************************************************)
@@ -186,10 +196,10 @@ SkipFold(g, T, L, F, order, k, acc) ==
                     [sd |-> IF sdi THEN acc.sd \cup {i} ELSE acc.sd,
                      skipped |-> IF d0 /\ Rec(g, T, L, i) # {} THEN acc.skipped \cup {i} ELSE acc.skipped])
 \* Statements whose recorded dependencies are not consulted.
-SkippedSet(g, T, L, F) == SkipFold(g, T, L, F, Topo(g, T, L), 1, [sd |-> {}, skipped |-> {}]).skipped
+SkippedSet(g, T, L, F, S) == SkipFold(g, T, L, F, TopoN(g, T, L, S), 1, [sd |-> {}, skipped |-> {}]).skipped
 ExpectedRunSkip(g, T, L, F, targets) ==
-  LET L2 == LNoRec(L, SkippedSet(g, T, L, F)) IN
+  LET L2 == LNoRec(L, SkippedSet(g, T, L, F, Needed(g, T, L, targets))) IN
   \* ignoring the records also removes the "record invalid" reason: keep recok
-  RunFold(g, T, L2, F, Needed(g, T, L2, targets), Topo(g, T, L2), 1,
+  RunFold(g, T, L2, F, Needed(g, T, L2, targets), TopoN(g, T, L2, Needed(g, T, L2, targets)), 1,
           [runs |-> {}, rew |-> {}, pred |-> Disk(g, T)]).runs
 =============================================================================
